@@ -53,8 +53,10 @@ static void vf_did_return(void);
 static int vf_arg_line(void);
 static void vf_did_setline(int v, int now);
 
+/* every action body of a harness scanner starts with vf_body(); the default rule's ECHO counts as its body */
+static void vf_body(void);
 #if !defined(VF_KEEP_ECHO) && !defined(VF_API_C99)
-#define yyecho() do { } while (0)
+#define yyecho() vf_body()
 #endif
 
 #if defined(VF_API_NR) || defined(VF_API_R) || defined(VF_API_CXX)
